@@ -34,7 +34,7 @@ MUTANTS = {
 def sconsts(mix, reqs, keys, crashes=0, faults=0, **over):
     c = dict(seqfamily.BASE)
     c.update(MaxI=3, Keys=set(keys), Reqs=set(reqs), Catalog=Raw("<- Cat" + mix), MaxCrashes=crashes, MaxFaults=faults, MaxCloses=0,
-             LockMode="all", UsePreLock=True, DupCheck=True, StoreBeforeSign=True, FaultIgnored=False, UnlockEarly=False)
+             LockMode="all", UsePreLock=True, DupCheck=True, StoreBeforeSign=True, FaultIgnored=False, UnlockEarly=False, StoreMode="atomic")
     c.update(over)
     return c
 
